@@ -165,8 +165,10 @@ def eval_meta(ctx, case):
                             ctx.mismatch(case, dm, ans[:200])
                         break
     d = traces_differ(tr1, tr2)
+    if d is None and tr1['build_error'] is None and tr1['error'] is None and len(tr1['time']) >= 3:
+        # a snapshot of both systems at the same physical instant between two recorded ones (default output units)
+        d = snapshots_differ(ctx, tr1, b1, tr2, b2)
     if d is None:
-        # snapshots agree too (same physical instant, different output units are C18's subject)
         return
     if tr1['build_error'] is None and tr2['build_error'] is None:
         why = sim_props.near_threshold(s1, tr1) or sim_props.near_threshold(s2, tr2) or guard_boundary(s1) or rule_boundary(s1, tr1) or rule_boundary(s2, tr2)
@@ -174,6 +176,38 @@ def eval_meta(ctx, case):
             ctx.count('pair excluded: ' + why)
             return
     ctx.violation(case, {'why': 'the same model in other units behaves differently: ' + d})
+
+
+def snapshots_differ(ctx, tr1, b1, tr2, b2):
+    import gearpy.units as U
+    j = ctx.rng.randrange(len(tr1['time']) - 1)
+    t = tr1['time'][j] + ctx.rng.uniform(0.2, 0.8) * (tr1['time'][j + 1] - tr1['time'][j])
+    out = []
+    for b, u in ((b1, 'sec'), (b2, ctx.rng.choice(['sec', 'ms', 'min']))):
+        try:
+            df = b.pt.snapshot(target_time=U.Time(float(F(t) / SI['Time'][u]), u), print_data=False)
+            out.append(('ok', df))
+        except Exception as ex:  # noqa: BLE001
+            out.append(('err', type(ex).__name__))
+    if out[0][0] != out[1][0]:
+        return f'snapshot at t = {t} s succeeds in one unit system only: {out[0][0]} / {out[1]}'
+    if out[0][0] == 'err':
+        return None
+    d1, d2 = out[0][1], out[1][1]
+    if list(d1.columns) != list(d2.columns) or len(d1) != len(d2):
+        return 'snapshots have different shapes'
+    import math as _m
+    for col in d1.columns:
+        for k, (x, y) in enumerate(zip(d1[col].tolist(), d2[col].tolist())):
+            if isinstance(x, (int, float)) and isinstance(y, (int, float)):
+                if _m.isnan(x) and _m.isnan(y):
+                    continue
+                sc = max(abs(float(v)) for v in d1[col].tolist() if isinstance(v, (int, float)) and not _m.isnan(v)) if any(
+                    isinstance(v, (int, float)) and not _m.isnan(v) for v in d1[col].tolist()) else 1.0
+                if not (abs(x - y) <= 1e-6 * max(sc, 1e-9)):
+                    return f'snapshot at t = {t} s: {col!r} of row {k} is {x} vs {y}'
+    ctx.count('snapshot pairs compared')
+    return None
 
 
 def guard_boundary(spec):
